@@ -85,7 +85,15 @@ void h_op(void) {
   in_arg[0] = mk_arg(CLS1, 0); S.stack[S.top - 1] = in_arg[0];
 #endif
 #if NARGS >= 2
-  in_arg[1] = mk_arg(CLS2, 1); S.stack[S.top - 2] = in_arg[1];
+  in_arg[1] = mk_arg(CLS2, 1);
+#ifdef DIVISOR      /* division classes: a constant divisor, or both operands small */
+  in_arg[1] = sexp_make_fixnum(DIVISOR);
+#endif
+#ifdef SMALL_OPERANDS
+  __CPROVER_assume(sexp_unbox_fixnum(in_arg[0]) > -(1L << SMALL_OPERANDS) && sexp_unbox_fixnum(in_arg[0]) < (1L << SMALL_OPERANDS)
+                   && sexp_unbox_fixnum(in_arg[1]) > -(1L << SMALL_OPERANDS) && sexp_unbox_fixnum(in_arg[1]) < (1L << SMALL_OPERANDS));
+#endif
+  S.stack[S.top - 2] = in_arg[1];
 #endif
 #if NARGS >= 3
   in_arg[2] = mk_arg(CLS3, 2); S.stack[S.top - 3] = in_arg[2];
@@ -106,5 +114,35 @@ void h_op(void) {
     OBL(sexp_pointerp(S.stack[S.top - 1]) && verif_registered(S.stack[S.top - 1]) && sexp_pointer_tag(S.stack[S.top - 1]) == SEXP_EXCEPTION, "op.error_value: the condition object is on top of the stack");
   }
   OBL(S.stack == vm_stack_obj.data && S.fp == VM_BASE, "op.frame: frame pointer and stack unchanged");
+#ifdef ARITH
+#ifdef VERIF_UF_SMUL
+#define ARITH_PRODUCT(a, b) ((__int128)lsint_mul_sint(lsint_from_sint(a), b))
+#else
+#define ARITH_PRODUCT(a, b) ((__int128)(a) * (b))
+#endif
+  /* C04.1: fixnum fast path, all 2^124 operand pairs: the exact result as a fixnum, or the operands
+     handed over intact to the generic (bignum) entry point, or divide-by-zero raised */
+  {
+    extern int vm_handover; extern sexp vm_handover_a, vm_handover_b;
+    long a = sexp_unbox_fixnum(in_arg[0]), b = sexp_unbox_fixnum(in_arg[1]);
+    __int128 exact = ARITH == 1 ? (__int128)a + b : ARITH == 2 ? (__int128)a - b : ARITH == 3 ? ARITH_PRODUCT(a, b) :
+                     ARITH == 5 ? (b ? (__int128)a / b : 0) : ARITH == 6 ? (b ? (__int128)(a % b) : 0) :
+                     ARITH == 7 ? (a < b) : ARITH == 8 ? (a <= b) : (a == b);
+    int fits = exact >= SEXP_MIN_FIXNUM && exact <= SEXP_MAX_FIXNUM;
+    sexp r = S.stack[S.top - 1];
+    if ((ARITH == 5 || ARITH == 6) && b == 0) {
+      OBL(ex == VERIF_EXIT_ERROR, "arith.div_by_zero: division by zero raises");
+    } else if (ARITH >= 7) {
+      OBL(ex == VERIF_EXIT_NEXT && vm_handover == 0 && r == (exact ? SEXP_TRUE : SEXP_FALSE), "arith.compare: exact comparison of the two fixnums");
+    } else if (fits) {
+      OBL(ex == VERIF_EXIT_NEXT && vm_handover == 0 && sexp_fixnump(r) && sexp_unbox_fixnum(r) == (long)exact, "arith.exact: the result slot is the fixnum of the exact result");
+    } else {
+      OBL(vm_handover == ARITH, "arith.handover: a result that does not fit a fixnum is handed over to the generic entry point");
+      OBL(sexp_pointerp(vm_handover_a) && sexp_pointer_tag(vm_handover_a) == SEXP_BIGNUM && sexp_bignum_length(vm_handover_a) == 1
+          && (long)sexp_bignum_sign(vm_handover_a) * (__int128)sexp_bignum_data(vm_handover_a)[0] == a && vm_handover_b == in_arg[1],
+          "arith.handover_operands: the operands reach the generic entry point intact (first as a bignum)");
+    }
+  }
+#endif
   REACH();
 }
